@@ -262,12 +262,25 @@ func ferun(c *Ctx) {
 					h := runCmd(dir, env, exe, "-h", w)
 					help = append(help, []interface{}{h.stdout, h.status})
 				}
-				impl := J{"list": l.stdout, "help": help}
+				// the same list with the colour variables set
+				colorEnv := [][]string{}
+				cenv := append([]string{}, env...)
+				for _, kv := range [][]string{
+					{"MAGEFILE_ENABLE_COLOR", []string{"1", "true", "TRUE", "yes", "0", ""}[r.Intn(6)]},
+					{"MAGEFILE_TARGET_COLOR", []string{"Red", "brightBLUE", "cyan", "nocolor", "", "BrightWhite", "black"}[r.Intn(7)]},
+					{"TERM", []string{"xterm", "vt100", "cygwin", "xterm-mono", "", "xterm-256color"}[r.Intn(6)]}} {
+					if r.Chance(3, 4) {
+						colorEnv = append(colorEnv, kv)
+						cenv = append(cenv, kv[0]+"="+kv[1])
+					}
+				}
+				lc := runCmd(dir, cenv, exe, "-l")
+				impl := J{"list": l.stdout, "listColor": lc.stdout, "help": help}
 				if l.status != 0 {
 					impl["listStatus"] = l.status
 					impl["stderr"] = l.stderr
 				}
-				c.Emit(J{"op": "fe.text", "project": p, "fields": fields, "docText": dt, "syn": sy, "bin": bin, "helpWords": hw}, impl, "text", "way="+way)
+				c.Emit(J{"op": "fe.text", "project": p, "fields": fields, "docText": dt, "syn": sy, "bin": bin, "helpWords": hw, "colorEnv": colorEnv}, impl, "text", "way="+way, fmt.Sprintf("colored=%v", strings.Contains(lc.stdout, "\x1b[")))
 			}
 		}
 		arity := map[string][]string{}
